@@ -15,7 +15,9 @@ def st_history_case(draw,
                     max_ops=None,
                     hashes=None,
                     payload=True,
-                    multi=True):
+                    multi=True,
+                    busy=False,
+                    min_ops=1):
     desc = draw(
         history.st_desc(tfrec_weight=tfrec_weight,
                         hashes=hashes,
@@ -28,7 +30,9 @@ def st_history_case(draw,
         history.st_ops(desc["eps"],
                        max_ops=max_ops,
                        multi=multi,
-                       create_again=create_again))
+                       create_again=create_again,
+                       busy=busy,
+                       min_ops=min_ops))
     return {"desc": desc, "ops": ops}
 
 
